@@ -70,9 +70,6 @@ float** d_estimation(struct msa* msa, int* samples, int num_samples,int pair)
         int len_b;
 
         int i,j;
-#if HAVE_AVX2
-        set_broadcast_mask();
-#endif
 
         if(pair){
 
